@@ -10,7 +10,7 @@ from pyvc import core
 from pyvc.arrays import SArr
 from pyvc.core import And, Not, Or, RaiseSig, SBool, SInt, SObj, Unsupported, ctx, implies, ite
 from pyvc.interp import model
-from pyvc.sbytes import SBytes
+from pyvc.sbytes import SBytes, le_compose
 from pyvc.verify import Contract, Lemma, register
 
 from .c01_volume import snapshot
@@ -144,6 +144,39 @@ def native_cseg_fuzz(model, dt, n=400):
 
 
 @register
+class CeilDivForms(Lemma):
+    name = "lemma:(a-1)//b+1==ceil(a/b)"
+    props = ("C10",)
+
+    def run(self, c, cfg):
+        a, b = c.int("a", inp=True), c.int("b", inp=True)
+        c.assume(And(a >= 1, b >= 1))
+        q, r = c.divmod(a, b)
+        c.prove("(a-1)//b+1==ceil(a/b)", c.divmod(a - 1, b)[0] + 1 == ite(r == 0, q, q + 1))
+
+
+def native_cseg_valid(dt):
+    """valid encodings (shared lookup tables, several blocks and channels) must decode to the encoded array"""
+    from neuroglancer_scripts import _compressed_segmentation as cs
+    for shape in ((1, 16, 16, 16), (2, 9, 8, 17), (3, 1, 1, 1), (1, 4, 4, 4)):
+        for bs in ((8, 8, 8), (4, 4, 4), (2, 3, 1)):
+            for fill in ("zeros", "const", "sparse"):
+                a = np.zeros(shape, dt)
+                if fill == "const":
+                    a[...] = 7
+                elif fill == "sparse":
+                    a[0, 0, 0, 0] = 5
+                buf = bytes(cs.encode_chunk(a, bs))
+                try:
+                    out = cs.decode_chunk_into(np.empty(shape, dt), buf, bs)
+                except Exception as e:
+                    return {"reproduced": True, "detail": f"valid encoding of a {fill} chunk, shape {shape}, block {bs}, {dt} ({len(buf)} bytes) rejected: {e!r}"}
+                if not np.array_equal(out, a):
+                    return {"reproduced": True, "detail": f"valid encoding of a {fill} chunk, shape {shape}, block {bs} decodes to a different array"}
+    return {"reproduced": False, "detail": "valid encodings accepted"}
+
+
+@register
 class DecodeChannelIntoAbs(Contract):
     """call-site contract of _decode_channel_into (body verified above): may write chunk[channel],
     may raise InvalidFormatError"""
@@ -159,6 +192,7 @@ class DecodeChannelIntoAbs(Contract):
         b = self.bind(fn, args, kwargs)
         from neuroglancer_scripts.chunk_encoding import InvalidFormatError
         if interp.truth(c.bool("channel_invalid")):
+            c.ghost["channel_decoder_raised"] = True
             raise RaiseSig(InvalidFormatError())
         chunk, ch = b["chunk"], b["channel"]
         junk = SArr.fresh(c, c.fresh_name("decoded"), chunk.dtype, chunk.shape[1:], kind="int", inp=False)
@@ -176,6 +210,7 @@ class DecodeChunkInto(Contract):
 
     def setup(self, c, cfg):
         nch, dt = cfg
+        self.cfg = cfg
         self.chunk, self.buf, self.bs = mk_cseg_args(c, nch, dt)
         return (self.chunk, self.buf, self.bs), {}
 
@@ -193,11 +228,30 @@ class DecodeChunkInto(Contract):
         super().check_return(c, result, b, cfg)
 
     def raises_when(self, c):
+        # "valid data is never rejected": decode_chunk_into itself may reject only a file that cannot hold what
+        # the format requires -- the channel offset table plus every channel's block headers (lookup tables may
+        # be shared between blocks, so nothing more can be demanded here), or a channel whose block headers
+        # would run past the end of the file. Any other rejection must come from the channel decoder.
         from neuroglancer_scripts.chunk_encoding import InvalidFormatError
-        return [(InvalidFormatError, True)]
+        nch, dt = self.cfg
+        _, Z, Y, X = self.chunk.shape
+        g = []
+        for size, b in ((X, self.bs[0]), (Y, self.bs[1]), (Z, self.bs[2])):
+            # ceil(size/b) written as (size-1)//b + 1 (equal for size, b >= 1: lemma:(a-1)//b+1==ceil(a/b) below), so
+            # that the block count is the same opaque product as in the code and the goal stays linear
+            g.append(c.divmod(size - 1, b)[0] + 1)
+        headers = 8 * g[0] * g[1] * g[2]
+        reasons = [SBool(z3.BoolVal(bool(c.ghost.get("channel_decoder_raised", False)))),
+                   self.buf.len < nch * (4 + headers)]
+        for ch in range(nch):
+            reasons.append(And(self.buf.len >= 4 * nch, 4 * le_compose(self.buf.fn, 4 * ch, 4) + headers > self.buf.len))
+        return [(InvalidFormatError, Or(*reasons))]
 
     def replay(self, model, cfg, ob_name):
-        return native_cseg_fuzz(model, cfg[1])
+        r = native_cseg_fuzz(model, cfg[1])
+        if r["reproduced"]:
+            return r
+        return native_cseg_valid(cfg[1])
 
 
 @register
